@@ -821,6 +821,11 @@ def make_data(kind, n, seed):
         return dups(max(1, n // 10))
     if kind == "dup_many":
         return dups(n - 3)
+    if kind == "dup_block":          # adjacent duplicates: the same time point for the time-sensitive estimator
+        X = base.copy()
+        i = int(rng.integers(0, n // 2 - 3))
+        X[i + 1] = X[i]; X[i + 2] = X[i]
+        return X
     if kind == "dup_all":
         return np.tile(base[0], (n, 1))
     if kind == "dup_pairs":
@@ -865,7 +870,7 @@ def make_data(kind, n, seed):
 # data kinds whose fitted values must be bitwise those of a reference kind (same seed)
 SAME_AS = {"list": "clean", "sparse": "clean", "sparse_array": "clean", "jax": "clean", "1d": "col", "list1d": "col",
            "int": "float_of_int"}
-MUST_REFUSE = {"dup_all", "const_all", "empty", "nan_cell", "inf_cell"}
+MUST_REFUSE = {"dup_pairs", "dup_all", "const_all", "empty", "nan_cell", "inf_cell"}
 _FITCACHE = {}
 
 
@@ -930,8 +935,8 @@ def case_fit(ctx, res, p):
                         p, detail={"error": str(e)[:200]}, signature=sig)
         return
     if cls != "ok":
-        if kind in ("clean", "dup_some", "const_col", "list", "sparse", "sparse_array", "jax", "f32", "col") \
-                and not (est_name == "dimensionality" and kind == "dup_some"):
+        if kind in ("clean", "dup_some", "dup_block", "const_col", "list", "sparse", "sparse_array", "jax", "f32", "col") \
+                and not (est_name == "dimensionality" and kind in ("dup_some", "dup_block", "dup_pairs")):
             res.oracle_fail(f"{est_name} estimator refused '{kind}' data ({cls}: {str(e)[:80]})", p,
                             signature=f"C20:fit-refused:{est_name}:{kind}")
         if kind in ("1d", "list1d") and est_name in ("density", "function", "dimensionality"):
@@ -939,7 +944,7 @@ def case_fit(ctx, res, p):
                             signature=f"C20:fit-1d-refused:{est_name}")
         return
     fitted, pred, nn = out
-    if kind in MUST_REFUSE:
+    if kind in MUST_REFUSE and not (est_name == "dimensionality" and kind == "dup_pairs"):
         res.oracle_fail(f"{est_name} estimator accepted '{kind}' data (no valid distance / non-finite cell)", p,
                         detail={"fitted_finite": bool(np.all(np.isfinite(fitted)))}, signature=f"C20:fit-accepted:{kind}")
     if not np.all(np.isfinite(fitted)):
@@ -1029,6 +1034,13 @@ def run(ctx, res):
     run_case(ctx, res, {"op": "xfrt", "bits": [fb(v) for v in specials] + [int(v) for v in rnd]})
     for w in witnesses():
         run_case(ctx, res, w)
+    # 0b. core fits on dirty data: always run, before the time-boxed sweeps
+    seed_core = int(rng.integers(1, 10 ** 6))
+    core = [("time", "dup_block"), ("time", "dup_pairs"), ("density", "dup_some"), ("density", "dup_pairs"),
+            ("function", "dup_some"), ("density", "1d"), ("function", "sparse"), ("time", "clean")]
+    for est_name, kind in core:
+        run_case(ctx, res, {"op": "fit", "estimator": est_name, "data": kind, "n": 20, "seed": seed_core})
+    res.count("fit:core", len(core))
     # 1. every scalar validator x the whole menu (exhaustive over the menu)
     for name, _, _ in SCALAR_OPS:
         for spec in menu:
@@ -1087,7 +1099,7 @@ def run(ctx, res):
                     continue
                 run_case(ctx, res, {"op": "predict", "features": f, "method": method, "x": xs, "normalize": ["B", False]})
     # 8. fits on dirty data (time-boxed)
-    kinds = ["clean", "col", "float_of_int", "dup_some", "dup_many", "dup_all", "dup_pairs", "const_col", "const_all", "1d", "list",
+    kinds = ["clean", "col", "float_of_int", "dup_some", "dup_block", "dup_many", "dup_all", "dup_pairs", "const_col", "const_all", "1d", "list",
              "list1d", "sparse", "sparse_array", "int", "int32", "f32", "jax", "empty", "nan_cell", "inf_cell"]
     plan = []
     seed0 = int(rng.integers(1, 10 ** 6))
